@@ -511,6 +511,11 @@ func (r *Run) Finish() {
 		ev["assumptions"] = []string{}
 	}
 	evPath := filepath.Join(VerifDir(), "evidence", r.ID+".json")
+	if os.Getenv("VERIF_NO_EVIDENCE") != "" {
+		// runs against a scratch checkout (seeded breaks) must not overwrite the evidence of the real tree
+		os.MkdirAll(filepath.Join(VerifDir(), ".scratch", "evidence-alt"), 0o755)
+		evPath = filepath.Join(VerifDir(), ".scratch", "evidence-alt", r.ID+".json")
+	}
 	if r.Replay == "" {
 		b, _ := json.MarshalIndent(ev, "", " ")
 		os.WriteFile(evPath, b, 0o644)
